@@ -142,6 +142,15 @@ GeoCanon(e) ==
     edges   |-> {GeoSetOf(e, VSet(e.edges[g])) : g \in 1..NE(e)},
     bedges  |-> {GeoSetOf(e, VSet(e.edges[g])) : g \in VSet(e.bedges) \cap (1..NE(e))} ]
 
+\* the advertised sizes (nelements, nvertices, nfacets, nedges, nnodes, first-order flag) are those of the tables
+MaxId(e) == MaxSet(UNION {VSet(e.t[k]) : k \in 1..NT(e)})
+CountsAgree(e) == ("counts" \in DOMAIN e /\ Len(e.counts) = 6) =>
+   /\ e.counts[1] = NT(e)
+   /\ e.counts[3] = NF(e)
+   /\ (Has3D(e.kind) => e.counts[4] = NE(e))
+   /\ (NT(e) > 0 => IF e.counts[6] = 1 THEN e.counts[2] = MaxId(e) /\ e.counts[5] = NNodes(e.kind)
+                                         ELSE e.counts[2] >= MaxId(e) /\ e.counts[5] >= NNodes(e.kind))
+
 ConnClauses(e) ==
   IF ~ConnWellFormed(e) THEN [WellFormed |-> FALSE]
   ELSE LET own == Owners(e) IN
@@ -157,7 +166,8 @@ ConnClauses(e) ==
       InteriorBoundaryPartition |-> InteriorBoundaryPartition(e),
       BoundaryEdgesExact |-> BoundaryEdgesExact(e, own),
       IncidenceMatrices |-> IncidenceMatrices(e),
-      HexCyclic |-> HexCyclic(e) ]
+      HexCyclic |-> HexCyclic(e),
+      CountsAgree |-> CountsAgree(e) ]
 
 \* ---------------------------------------------------------------------------
 \* Transcription of Mesh.build_entities / build_inverse (mesh.py:1065-1100).
